@@ -980,6 +980,8 @@ class Executor(object):
             return res
         if isinstance(fv, VFunc):
             if fv.kind == 'builtin':
+                if st.spec:
+                    args = [a.val if isinstance(a, VOpt) else a for a in args]
                 return fv.target(self, st, args, kwargs, node)
             if fv.kind == 'method':
                 return self.B.call_method(self, st, fv.selfv, fv.target, args, kwargs, node)
@@ -1029,6 +1031,8 @@ class Executor(object):
         return self.ev1(sub, body)
 
     def instantiate(self, st, ci, args, kwargs, node):
+        if ci.key in self.B.CTOR_STUBS:
+            return self.B.CTOR_STUBS[ci.key](self, st, args, kwargs, node)
         decl = self.reg.class_decl(ci.key, self.db)
         init = self.db.find_method(ci, '__init__')
         c = self.reg.contracts.get('%s.__init__' % ci.key)
@@ -1764,6 +1768,12 @@ class Executor(object):
         init.env['_y0'] = y0 if y0 is not None else NONE
         init.env['yielded'] = y0 if y0 is not None else NONE
         snapshot = st.fork()
+        for n_, ty_ in linv.get('types', {}).items():
+            cur = init.env.get(n_)
+            if isinstance(cur, VSeq) and cur.concrete and not cur.items:
+                proto = self.fresh(init, expand_unions(parse_type(ty_))[0], n_ + '_empty')
+                if isinstance(proto, VSeq):
+                    init.env[n_] = VSeq(length=z3.IntVal(0), elem=proto.elem, kind=cur.kind)
         for i, inv in enumerate(invs):
             init.old = snapshot
             self.oblige(st, self.spec_bool(init, inv), '%s.init#%d' % (tag, i), 'loop-init', where, {'clause': inv})
